@@ -26,6 +26,9 @@ LEAVES = [
     T.lam(T.path("x", "ts"), "All", "y", T.binop("Eq", T.path("y", "name"), T.path("zz", "name"))),
     T.lam(T.path("a", "ys"), "Any"), T.lam(T.path("x", "a", "ys"), "Any"), T.Str("x/a"), T.path("x", "x"), T.path("x", "x", "x"),
 ]
+# qualified segments directly behind the variable, deeper in the path, and behind another root
+LEAVES += [T.A(x, "ns.a"), T.A(T.A(x, "ns.a"), "b"), T.A(T.A(x, "a"), "ns.b"), T.A(T.A(T.I("y"), "ns.a"), "b"), T.A(x, "n1.n2.a"),
+           T.lam(T.A(x, "ns.ys"), "Any", "y", T.binop("Eq", T.A(T.I("y"), "m.p"), T.A(x, "m.q")))]
 LIST_LEAVES = [T.lst(T.path("x", "a"), T.Int(1)), T.lst(T.path("y", "a")), T.lst(x, T.path("x", "b", "c"))]
 VARS = [T.I("x"), T.I("y"), T.I("zz"), T.I("x", ("ns",))]
 
